@@ -414,7 +414,9 @@ def hIsnAdd (ps tok pcs qs rhs : String) : Verdict :=
     let vals : List (Nat × List (Fp q)) := Qs.map fun id =>
       (id, [vsum ((pieces.filter fun (k, _) => !maskHas k id && pivot k == some id).map fun (_, v) => Fp.ofNat q v)])
     let total : Fp q := vsum (pieces.map fun (_, v) => Fp.ofNat q v)
-    if rhs.startsWith "panic" then .bad "panic" ("expected=ok:" ++ renderIdVals vals ++ " observed=" ++ rhs) else
+    let emptyShare := Qs.any fun id => pieces.all fun (k, _) => maskHas k id
+    if rhs.startsWith "panic" then
+      .bad (if emptyShare then "isn-additive-empty-share-panic" else "panic") ("expected=ok:" ++ renderIdVals vals ++ " observed=" ++ rhs) else
     if !rhs.startsWith "ok:" then
       (if pol.isQualified Q then .bad "isn-additive-refused" rhs else mirror ("ok:" ++ renderIdVals vals) rhs) else
     match parseIdVals? (rhs.drop 3).toString with
